@@ -420,6 +420,14 @@ impl Prop for C13 {
                 }
             };
             let (fp, fn_) = (side(rng), side(rng));
+            // half of this stream: beta^2 near 2^-53 / 2^53, where (1 + beta^2) * p * r rounded above beta^2 * p + r (D11)
+            let beta = if rng.chance(1, 2) {
+                let e = rng.range(25, 28) as i32;
+                let e = if rng.chance(1, 2) { -e } else { e };
+                scaled_beta(rng, e)
+            } else {
+                beta
+            };
             let tn = rng.below(4);
             let mut pairs: Vec<(bool, bool)> = vec![];
             pairs.extend(std::iter::repeat((true, true)).take(tp));
